@@ -100,7 +100,7 @@ def handleBoard (i o : Json) : Except String Verdict := do
   if wh != [vb.w, vb.h] || outer != [vb.w, vb.h] then
     return .specfalse "viewport-size" s!"svg width/height {wh} and outer viewBox 0 0 {outer} differ from the inner viewBox size {vb.w} {vb.h}"
   -- model vs implementation ---------------------------------------------------------------------------------------
-  let m := boundingBox d
+  let m := boundingBox Cfg.current d
   let anyTip := shapes.any fun s => s.badge && s.tipPos
   if anyTip then
     -- positioned tooltip bounds are not available to the model: the real box may only be larger
